@@ -462,7 +462,8 @@ void WorldQ::on_send_event(const Event &e) {
         bool ok = discard || (bounce_child_seen && bounce_child_status == 0);
         if (!ok && enabled("c14")) violate("C14.bounce-record-dropped", "bounce/" + std::to_string(n) + " unlinked although no bounce was successfully queued");
         if (!ok && enabled("c03")) violate("C03.bounce-record-dropped", "bounce/" + std::to_string(n) + " unlinked without a successfully queued bounce (child status " + std::to_string(bounce_child_status) + ")");
-        for (auto &r : m->rc) if (r.noted) { r.noted = false; r.bounced = true; }
+        if (ok && !discard && enabled("c03")) for (auto &r : m->rc) if (r.noted && !r.named) { violate("C03.bounce-omits-recipient", "bounce/" + std::to_string(n) + " is removed after a bounce was queued, but that bounce does not name recipient " + printable(r.addr) + " with its failure text \"" + printable(r.fail_text, 80) + "\""); break; }
+        for (auto &r : m->rc) if (r.noted) { r.noted = false; r.named = false; r.bounced = true; }
         if (discard) k->probe("triple_bounce_discarded");
       } else if ((dir == "local" || dir == "remote") && m && !in_todo && m->phase == GMsg::PREPROCESSED) {
         int ch = dir == "local" ? 0 : 1;
